@@ -83,6 +83,14 @@ def _apply_symp_two_mode_gate(S_G, S, r, i, j):
     return S, r
 
 
+def _inverse_if_dagger(S_G, op):
+    r"""Returns the inverse of the symplectic matrix ``S_G`` if the operation ``op`` carries
+    the inverse (dagger) flag, and ``S_G`` itself otherwise."""
+    if getattr(op, "dagger", False):
+        return np.linalg.inv(S_G)
+    return S_G
+
+
 class GaussianUnitary(Compiler):
     """Compiler to arrange a Gaussian quantum circuit into the canonical Symplectic form.
 
@@ -197,20 +205,30 @@ class GaussianUnitary(Compiler):
             modes = [modes_label.ind for modes_label in operations.reg]
             if name == "Dgate":
                 alpha = params[0] * (np.exp(1j * params[1]))
+                if operations.op.dagger:
+                    alpha = -alpha
                 rnet[dict_indices[modes[0]]] += 2 * alpha.real
                 rnet[dict_indices[modes[0]] + nmodes] += 2 * alpha.imag
             else:
                 if name == "Rgate":
                     Snet, rnet = _apply_symp_one_mode_gate(
-                        rotation(params[0]), Snet, rnet, dict_indices[modes[0]]
+                        _inverse_if_dagger(rotation(params[0]), operations.op),
+                        Snet,
+                        rnet,
+                        dict_indices[modes[0]],
                     )
                 elif name == "Sgate":
                     Snet, rnet = _apply_symp_one_mode_gate(
-                        squeezing(params[0], params[1]), Snet, rnet, dict_indices[modes[0]]
+                        _inverse_if_dagger(squeezing(params[0], params[1]), operations.op),
+                        Snet,
+                        rnet,
+                        dict_indices[modes[0]],
                     )
                 elif name == "S2gate":
                     Snet, rnet = _apply_symp_two_mode_gate(
-                        two_mode_squeezing(params[0], params[1]),
+                        _inverse_if_dagger(
+                            two_mode_squeezing(params[0], params[1]), operations.op
+                        ),
                         Snet,
                         rnet,
                         dict_indices[modes[0]],
@@ -254,7 +272,7 @@ class GaussianUnitary(Compiler):
 
                 elif name == "BSgate":
                     Snet, rnet = _apply_symp_two_mode_gate(
-                        beam_splitter(params[0], params[1]),
+                        _inverse_if_dagger(beam_splitter(params[0], params[1]), operations.op),
                         Snet,
                         rnet,
                         dict_indices[modes[0]],
@@ -266,7 +284,7 @@ class GaussianUnitary(Compiler):
                     u = np.exp(1j * params[1])
                     U = 0.5 * np.array([[u * (v - 1), 1j * (1 + v)], [1j * u * (1 + v), 1 - v]])
                     Snet, rnet = _apply_symp_two_mode_gate(
-                        interferometer(U),
+                        _inverse_if_dagger(interferometer(U), operations.op),
                         Snet,
                         rnet,
                         dict_indices[modes[0]],
@@ -279,7 +297,7 @@ class GaussianUnitary(Compiler):
                         [[np.sin(delta), np.cos(delta)], [np.cos(delta), -np.sin(delta)]]
                     )
                     Snet, rnet = _apply_symp_two_mode_gate(
-                        interferometer(U),
+                        _inverse_if_dagger(interferometer(U), operations.op),
                         Snet,
                         rnet,
                         dict_indices[modes[0]],
